@@ -255,3 +255,20 @@ def gen_data():
     ms(0, 0, 'quick'); ms(0, 1, 'quick'); ms(0, 3, 'thorough'); ms(1, 0, 'quick'); ms(1, 1, 'thorough'); ms(2, 2, 'quick'); ms(2, 0, 'thorough'); ms(3, 0, 'quick'); ms(4, 1, 'thorough')
     _splice(p, 'MISSING-SOME', out)
 gen_data()
+
+
+
+def gen_s2n():
+    p = os.path.join(VERIF, 'kani', 'js_op.rs')
+    out = []
+    for alpha, nm, what in [('ALPHA_NUM', 'num', '0 1 9 . - + e E space tab x a'), ('ALPHA_WORD', 'word', 'i n f I N a t y 1 - space A'), ('ALPHA_RADIX', 'radix', '0 x X b o 1 7 f - g')]:
+        for n in range(0, 6):
+            if nm == 'word' and n in (1, 2):
+                pass
+            tier = 'quick' if n <= 3 else 'thorough'
+            h = 'k_c07_s2n_%s_%d' % (nm, n)
+            out.append('    //@ob name=C07.str_to_number.%s.%d harness=%s props=C07,C09,C10,C01 tier=%s strength=bounded bound="every string of exactly %d characters over the alphabet {%s}" fns=js_op::str_to_number stubs=1 replay=generic timeout=300' % (nm, n, h, tier, n, what))
+            out.append('    //@ desc="str_to_number(s) == ECMAScript StringToNumber(s): surrounding whitespace ignored, \\"\\" is 0, only `Infinity` spelled that way, 0x/0o/0b literals honoured (unsigned), decimal literals by from_str (assumed contract), anything else non-numeric"')
+            out.append('    s2n_harness!(%s, %d, %s);' % (h, n, alpha))
+    _splice(p, 'S2N', out)
+gen_s2n()
